@@ -17,6 +17,7 @@ import QiVerif.Driver.C15
 import QiVerif.Driver.C12
 import QiVerif.Driver.C18
 import QiVerif.Driver.C18Pkg
+import QiVerif.Driver.C18Gen
 import QiVerif.Driver.C05
 open QiVerif.Driver
 
@@ -59,6 +60,7 @@ def dispatch (p : Params) (st : DState) (line : String) : DState × String :=
       ({ st with sv := s' }, out)
     else if op.startsWith "c12." then (st, C12.run ws)
     else if op == "idl.pkg" then (st, C18Pkg.run ws)
+    else if op == "idl.gen" then (st, C18Gen.run ws)
     else if op.startsWith "idl." then (st, C18.run ws)
     else if op.startsWith "gen." then (st, C05.run ws)
     else if op.startsWith "sd." then
